@@ -130,6 +130,29 @@ func (l *wal) GetOrCreatePartition(models.ShardID, int64, models.NodeID) (replic
 	return l.p.fp, nil
 }
 
+// follower-side storage fault: the follower partition's queue, with a one-shot failing Put
+// (partition.ReplicaLog's error branch, the handler and the leader's treatment of the answer are real)
+type faultyFanOut struct {
+	queue.FanOutQueue
+	p *peer
+}
+
+func (f *faultyFanOut) Queue() queue.Queue { return &faultyQueue{Queue: f.FanOutQueue.Queue(), p: f.p} }
+
+type faultyQueue struct {
+	queue.Queue
+	p *peer
+}
+
+func (q *faultyQueue) Put(b []byte) error {
+	if q.p.putFailOnce {
+		q.p.putFailOnce = false
+		q.p.w.putFailed = true
+		return errors.New("injected follower storage failure")
+	}
+	return q.Queue.Put(b)
+}
+
 // ---------------------------------------------------------------- loopback rpc
 
 type session struct {
@@ -198,6 +221,9 @@ func (cs *clientStream) Send(r *protoReplicaV1.ReplicaRequest) error {
 		return nil
 	}
 	w.lastReq = r
+	if w.fault == "put" {
+		cs.p.putFailOnce = true
+	}
 	cs.s.reqCh <- r
 	return nil
 }
@@ -209,6 +235,7 @@ func (cs *clientStream) Recv() (*protoReplicaV1.ReplicaResponse, error) {
 	}
 	select {
 	case r := <-cs.s.respCh:
+		cs.p.putFailOnce = false
 		if w.fault == "recv" {
 			w.recvFailed = true
 			return nil, errors.New("injected recv failure")
@@ -285,7 +312,7 @@ func (f *streamFactory) CreateReplicaServiceClient(target models.Node) (protoRep
 	if p == nil {
 		return nil, errors.New("unknown follower")
 	}
-	p.disturbed = false // a handshake of this channel starts
+	p.disturbed, p.putDisturbed = false, false // a handshake of this channel starts
 	if f.w.fault == "cli" {
 		return nil, errors.New("injected client failure")
 	}
@@ -307,7 +334,11 @@ type peer struct {
 	live    bool
 	pending chan string
 	grp     queue.ConsumerGroup // this follower's consumer group on the leader (handle of the current incarnation)
-	stopped bool                // IsExpire stopped the group and removed the replicator
+	stopped bool                // the group is not registered on the leader (never added, or stopped by IsExpire)
+	born    bool                // the group's directory exists on the leader
+
+	putFailOnce  bool // the next Put on this follower's queue fails
+	putDisturbed bool // a follower Put fault left the channel ready and out of step (until its next handshake)
 
 	fwEpoch   map[int64]int // follower position -> epoch of the leader bytes it received
 	disturbed bool          // the other channel's handshake reset the leader's append index while this channel was ready
@@ -315,6 +346,7 @@ type peer struct {
 
 type image struct {
 	dir      string
+	born     [2]bool
 	lwEpoch  map[int64]int
 	lwSynced [2]map[int64]bool
 }
@@ -335,6 +367,7 @@ type world struct {
 	// per-step instrumentation
 	fault                             string
 	sendTried, sendFailed, recvFailed bool
+	putFailed                         bool
 	lostInFlight, lostToggle          bool
 	lastReq                           *protoReplicaV1.ReplicaRequest
 	lastResp                          *protoReplicaV1.ReplicaResponse
@@ -379,16 +412,31 @@ func (w *world) openLeader() error {
 	ctx, cancel := context.WithCancel(context.Background())
 	w.cancel = cancel
 	w.lp = replica.NewPartition(ctx, w.shard, w.family, leaderID, q, &streamFactory{w: w}, w.sm)
-	if err := w.lp.BuildReplicaForLeader(leaderID, []models.NodeID{w.peers[0].id, w.peers[1].id}); err != nil {
+	for _, p := range w.peers {
+		p.grp = nil
+		p.stopped = !p.born
+		p.disturbed, p.putDisturbed = false, false
+		if p.born {
+			if err := w.join(p); err != nil {
+				return err
+			}
+		}
+	}
+	return nil
+}
+
+// join adds follower p to the leader partition (real BuildReplicaForLeader -> buildReplica ->
+// GetOrCreateConsumerGroup + NewRemoteReplicator).
+func (w *world) join(p *peer) error {
+	if err := w.lp.BuildReplicaForLeader(leaderID, []models.NodeID{p.id}); err != nil {
 		return err
 	}
-	for _, p := range w.peers {
-		if p.grp, err = q.GetOrCreateConsumerGroup(strconv.Itoa(int(p.id))); err != nil {
-			return err
-		}
-		p.stopped = false
-		p.disturbed = false
+	g, err := w.lq.GetOrCreateConsumerGroup(strconv.Itoa(int(p.id)))
+	if err != nil {
+		return err
 	}
+	p.grp = g
+	p.born, p.stopped = true, false
 	return nil
 }
 
@@ -410,7 +458,7 @@ func (p *peer) open() error {
 		return err
 	}
 	p.fq = q
-	p.fp = replica.NewPartition(context.Background(), p.w.shard, p.w.family, p.id, q, nil, nil)
+	p.fp = replica.NewPartition(context.Background(), p.w.shard, p.w.family, p.id, &faultyFanOut{FanOutQueue: q, p: p}, nil, nil)
 	return nil
 }
 
@@ -434,7 +482,7 @@ func newWorld() (*world, error) {
 	for i := range w.peers {
 		w.lwSynced[i] = map[int64]bool{}
 		p := &peer{w: w, name: string(rune('a' + i)), id: models.NodeID(2 + i), dir: filepath.Join(dir, "follower-"+string(rune('a'+i))),
-			live: true, fwEpoch: map[int64]int{}}
+			live: true, fwEpoch: map[int64]int{}, born: i == 0}
 		p.handler = storagerpc.NewReplicaHandler(&walMgr{p: p})
 		w.peers[i] = p
 		if err := p.open(); err != nil {
@@ -591,7 +639,10 @@ func (w *world) observe() obs {
 		var fs string
 		fs, po.fHeld = showLog(p.fq.Queue())
 		po.fAck, po.fApp = p.fq.Queue().AcknowledgedSeq(), p.fq.Queue().AppendedSeq()
-		po.cons, po.gack = p.grp.ConsumedSeq(), p.grp.AcknowledgedSeq()
+		po.cons, po.gack = -1, -1
+		if p.grp != nil {
+			po.cons, po.gack = p.grp.ConsumedSeq(), p.grp.AcknowledgedSeq()
+		}
 		po.stopped = p.stopped
 		po.chanSt, po.stream = "-", "-"
 		st, hasStream, susp, ok := replica.VerifC08ReplicatorInfo(w.lp, p.id)
@@ -619,8 +670,8 @@ func (w *world) observe() obs {
 			po.susp = p.pending != nil
 		}
 		po.synced = po.chanSt == "ready" && po.stream == "up"
-		parts = append(parts, fmt.Sprintf("%s: c=%d g=%d F=%s %s %s live=%s susp=%s stop=%s", strings.ToUpper(p.name), po.cons, po.gack, fs,
-			po.chanSt, po.stream, b01(p.live), b01(po.susp), b01(p.stopped)))
+		parts = append(parts, fmt.Sprintf("%s: c=%d g=%d F=%s %s %s live=%s susp=%s stop=%s born=%s", strings.ToUpper(p.name), po.cons, po.gack, fs,
+			po.chanSt, po.stream, b01(p.live), b01(po.susp), b01(p.stopped), b01(p.born)))
 	}
 	parts = append(parts, fmt.Sprintf("imgs=%d gone=%s", len(w.imgs), b01(w.gone)))
 	o.line = strings.Join(parts, " ")
@@ -631,7 +682,7 @@ func (w *world) observe() obs {
 
 func (w *world) resetStepFlags(fault string) {
 	w.fault = fault
-	w.sendTried, w.sendFailed, w.recvFailed, w.lostInFlight = false, false, false, false
+	w.sendTried, w.sendFailed, w.recvFailed, w.lostInFlight, w.putFailed = false, false, false, false, false
 	w.lastReq, w.lastResp = nil, nil
 	w.hsSeen, w.hsReset = false, false
 }
@@ -699,7 +750,7 @@ func (w *world) startStep(p *peer) chan string {
 
 // ---------------------------------------------------------------- events
 
-var faults = []string{"none", "cli", "getack", "reset", "connect", "send", "recv"}
+var faults = []string{"none", "cli", "getack", "reset", "connect", "send", "recv", "put"}
 
 func isFault(s string) bool {
 	for _, f := range faults {
@@ -725,7 +776,7 @@ func (w *world) apply(op string, pre obs) (string, *peer, error) {
 			return "bad-op", nil, nil
 		}
 		p = w.peerByName(ws[1])
-	case "frestart", "flose", "offline":
+	case "frestart", "flose", "offline", "join":
 		if len(ws) != 2 {
 			return "bad-op", nil, nil
 		}
@@ -745,7 +796,7 @@ func (w *world) apply(op string, pre obs) (string, *peer, error) {
 	default:
 		return "bad-op", nil, nil
 	}
-	if (ws[0] == "step" || ws[0] == "online" || ws[0] == "frestart" || ws[0] == "flose" || ws[0] == "offline") && p == nil {
+	if (ws[0] == "step" || ws[0] == "online" || ws[0] == "frestart" || ws[0] == "flose" || ws[0] == "offline" || ws[0] == "join") && p == nil {
 		return "bad-op", nil, nil
 	}
 	if ws[0] == "append" && ws[1] != "-" {
@@ -802,6 +853,13 @@ func (w *world) apply(op string, pre obs) (string, *peer, error) {
 	case "offline":
 		p.live = false
 		return "idle", p, nil
+	case "join":
+		if !p.stopped {
+			// an existing replicator is kept (buildReplica returns early)
+			return "idle", p, w.lp.BuildReplicaForLeader(leaderID, []models.NodeID{p.id})
+		}
+		p.pending = nil
+		return "idle", p, w.join(p)
 	case "online":
 		p.live = true
 		if p.stopped {
@@ -823,6 +881,9 @@ func (w *world) apply(op string, pre obs) (string, *peer, error) {
 	case "lsnap":
 		w.imgSeq++
 		im := &image{dir: filepath.Join(w.dir, fmt.Sprintf("image-%d", w.imgSeq)), lwEpoch: map[int64]int{}}
+		for i, q := range w.peers {
+			im.born[i] = q.born
+		}
 		if err := copyTree(w.leaderDir(), im.dir); err != nil {
 			return "", nil, err
 		}
@@ -853,6 +914,9 @@ func (w *world) apply(op string, pre obs) (string, *peer, error) {
 		}
 		if err := copyTree(im.dir, w.leaderDir()); err != nil {
 			return "", nil, err
+		}
+		for i, q := range w.peers {
+			q.born = im.born[i]
 		}
 		w.lossSeen = true
 		w.epoch++
@@ -928,7 +992,15 @@ func (w *world) check(c *core.Ctx, op, out string, ep *peer, pre, post obs) {
 					key = "reset-append-moves-other-followers-group"
 				}
 			}
+			// a follower-side Put failure is answered with AckIndex -1; the leader keeps the channel
+			// `ready` with the replica index one ahead of the follower
+			if p.putDisturbed && (key == "synced-replica-index" || key == "mismatched-answer") {
+				key = "follower-put-fault-leaves-channel-ready"
+			}
 			c.Fail(key, fmt.Sprintf("follower %s: %s", p.name, desc))
+		}
+		if mine && w.putFailed {
+			p.putDisturbed = true
 		}
 		// (1) the follower's log has no holes
 		for j, h := range po.fHeld {
@@ -970,11 +1042,16 @@ func (w *world) check(c *core.Ctx, op, out string, ep *peer, pre, post obs) {
 		// (3) acknowledgements: a moved ack is a position the follower has appended; without leader
 		// tail loss every newly acknowledged position is held by the follower at that moment and the
 		// follower's log never starts beyond the leader's ack for it
-		if !restart && po.gack != pr.gack && po.gack > po.fApp {
+		// (an ack at or below the queue's ack covers nothing the leader still holds: a group added to
+		// or re-registered on a partition starts at the queue's acknowledged sequence)
+		if !restart && po.gack != pr.gack && po.gack > po.fApp && po.gack > post.lAck {
 			fail("ack-beyond-follower", fmt.Sprintf("after %q group ack moved %d -> %d but follower appended is %d", op, pr.gack, po.gack, po.fApp))
 		}
 		if !restart && !w.lossSeen && po.gack > pr.gack {
 			for j := pr.gack + 1; j <= po.gack; j++ {
+				if j <= post.lAck {
+					continue // not held by the leader any more (re-open lift of a re-added group)
+				}
 				if h, ok := po.fHeld[j]; !ok || h == "!" {
 					fail("ack-not-covered", fmt.Sprintf("after %q group ack moved %d -> %d but the follower does not hold position %d (its log is %d/%d)", op, pr.gack, po.gack, j, po.fAck, po.fApp))
 					break
@@ -998,7 +1075,7 @@ func (w *world) check(c *core.Ctx, op, out string, ep *peer, pre, post obs) {
 			fail("ignored-message", fmt.Sprintf("%q: leader could not read a consumed message (consumed %d, queue ack %d, appended %d)", op, po.cons, post.lAck, post.lApp))
 		}
 		// (5) the leader never discards a position this follower has not acknowledged
-		if po.stopped && !pr.stopped && post.lApp > po.gack {
+		if !restart && po.stopped && !pr.stopped && post.lApp > po.gack {
 			fail("discarded-with-unacked", fmt.Sprintf("after %q the follower's group and replicator were stopped with appended %d > group ack %d (follower appended %d)", op, post.lApp, po.gack, po.fApp))
 		}
 	}
@@ -1039,7 +1116,14 @@ func genCase(rng *rand.Rand, tier string, idx int) []string {
 	}
 	var ops []string
 	ctr := idx * 7
+	joinAt := rng.Intn(10) // follower B is added early, sometimes on a log that already holds messages
+	if rng.Intn(4) == 0 {
+		joinAt = 0
+	}
 	for len(ops) < n {
+		if len(ops) == joinAt {
+			ops = append(ops, "join b")
+		}
 		r := rng.Intn(100)
 		switch {
 		case r < 26:
@@ -1070,20 +1154,22 @@ func genCase(rng *rand.Rand, tier string, idx int) []string {
 				f = faults[1+rng.Intn(len(faults)-1)]
 			}
 			ops = append(ops, "online "+who()+" "+f)
-		case r < 98:
+		case r < 96:
 			ops = append(ops, "gc")
+		case r < 98:
+			ops = append(ops, "join "+who())
 		default:
 			ops = append(ops, "expire")
 		}
 		if malformed && rng.Intn(6) == 0 {
-			bad := []string{"step a bogus", "step c none", "append zz", "append", "lrestore x", "lrestore -1", "online a", "restart", "append A1", "step none", "flose", "expire now"}
+			bad := []string{"step a bogus", "step c none", "append zz", "append", "lrestore x", "lrestore -1", "online a", "restart", "append A1", "step none", "flose", "expire now", "join", "join c", "step a putt"}
 			ops = append(ops, bad[rng.Intn(len(bad))])
 		}
 	}
 	return ops
 }
 
-// fixed histories replayed on every run (cases 0..5)
+// fixed histories replayed on every run (cases 0..7)
 var fixedCases = [][]string{
 	// 0: known finding: the leader loses its tail and re-appends beyond the follower before the handshake
 	{"append a0", "append a1", "append a2", "append a3", "step a none", "step a none", "step a none", "step a none",
@@ -1093,7 +1179,7 @@ var fixedCases = [][]string{
 	{"append a0", "append a1", "append a2", "append a3", "step a none", "step a none", "step a none", "step a none",
 		"lsnap", "append a4", "step a none", "lrestore 0", "step a none", "append b4", "append b5", "step a none"},
 	// 2: two followers: A's handshake moves the leader's append index (and B's group) while B's channel is ready
-	{"append a0", "append a1", "append a2", "append a3", "step a none", "step a none", "step a none", "step a none",
+	{"join b", "append a0", "append a1", "append a2", "append a3", "step a none", "step a none", "step a none", "step a none",
 		"step b none", "step b none", "step b none", "step b none", "lsnap",
 		"append a4", "append a5", "append a6", "step a none", "step a none", "step a none", "lrestore 0",
 		"step b none", "step a none", "append b7", "step b none", "append b8", "step b none", "step a none", "step a none"},
@@ -1101,11 +1187,17 @@ var fixedCases = [][]string{
 	{"append a0", "append a1", "append a2", "step a none", "step a none", "step a none", "append a3", "step a send",
 		"flose a", "append a4", "append a5", "step a none", "step a none", "step a none", "step a none", "gc"},
 	// 4: the last appended message lost in flight, leader Sync/GC before the next handshake
-	{"append a0", "append a1", "append a2", "step a none", "step a none", "step a none", "step b none", "step b none", "step b none",
+	{"join b", "append a0", "append a1", "append a2", "step a none", "step a none", "step a none", "step b none", "step b none", "step b none",
 		"append a3", "step b none", "step a send", "gc", "step a none", "append a4", "step a none", "step a none"},
 	// 5: expiry check while a message is un-acknowledged (loop parked on an offline follower), then while drained
-	{"append a0", "step a none", "step b none", "append a1", "step b none", "step a send", "offline a", "step a none", "expire",
+	{"join b", "append a0", "step a none", "step b none", "append a1", "step b none", "step a send", "offline a", "step a none", "expire",
 		"online a none", "step a none", "expire"},
+	// 6: a follower is added while the leader's log holds messages nobody has released yet
+	{"append a0", "append a1", "append a2", "step a none", "step a none", "gc", "append a3", "join b", "step b none", "step b none",
+		"step b none", "step b none", "step b none", "gc", "join a"},
+	// 7: the follower's Put fails (storage fault on the follower), the answer arrives; later the stream breaks
+	{"append a0", "step a none", "append a1", "step a put", "append a2", "step a none", "frestart a", "append a3", "step a none",
+		"step a none", "step a none", "step a none", "step a none"},
 }
 
 func (area) Run(c *core.Ctx) error {
